@@ -83,12 +83,24 @@ def well_conditioned(W):
     return s[:, -1] > 1e-2
 
 
+QSIZES = [(2, 1, 1), (2, 2, 1), (3, 1, 1), (3, 2, 1), (3, 2, 2), (3, 2, 0), (3, 3, 1)]
+QSIZES_SMALL = [(2, 1, 1), (3, 2, 1), (3, 2, 2)]
+FULL_KINDS = ("rhf", "uhf")  # the quick tier runs these on every size; the other kinds on a representative subset
+
+
+def quick_sizes(kind):
+    if kind in FULL_KINDS:
+        return al.sizes(3)
+    if kind in ("multislater", "uhf_cpmc", "ghf_cpmc", "ghf-unmixed"):
+        return QSIZES_SMALL
+    return QSIZES
+
+
 def qr_configs(tier, seed):
     thorough = tier == "thorough"
     out = []
     for kind in trials.KINDS_ALL:
-        nmax = 4 if thorough else 3
-        for (n, na, nb) in al.sizes(nmax):
+        for (n, na, nb) in (al.sizes(4) if thorough else quick_sizes(kind)):
             if not trials.admitted(kind, n, na, nb):
                 continue
             if nb == 0 and kind in trials.NEED_BOTH_SPINS:
@@ -97,16 +109,16 @@ def qr_configs(tier, seed):
                 continue
             variants = [""]
             if kind in ("uhf", "uhf_cpmc"):
-                variants = ["same", ""]
+                variants = ["same", ""] if (thorough or (n, na, nb) == (3, 2, 1)) else ["same"]
             if kind == "multislater":
                 ndet = len(trials.all_dets(n, na, nb))
-                variants = ["ref:%d" % k for k in (sorted(set([0, ndet - 1])) if not thorough else sorted(set([0, 1, ndet // 2, ndet - 1])))]
+                variants = ["ref:%d" % k for k in (sorted(set([0, 1, ndet // 2, ndet - 1])) if thorough else ([0, ndet - 1] if (n, na, nb) == (3, 2, 1) else [0]))]
             for v in variants:
                 out.append(dict(part="qr", kind=kind, n=n, na=na, nb=nb, variant=v, seed=seed, tier=tier))
-        if not thorough:
+        if not thorough and kind not in trials.AUTO_KINDS and not kind.endswith("_cpmc"):
             for (n, na, nb) in [(4, 2, 2), (4, 2, 1)]:
                 if trials.admitted(kind, n, na, nb):
-                    v = {"uhf": "same", "uhf_cpmc": "same", "multislater": "ref:1"}.get(kind, "")
+                    v = {"uhf": "same"}.get(kind, "")
                     out.append(dict(part="qr", kind=kind, n=n, na=na, nb=nb, variant=v, seed=seed, tier=tier, lite=True))
     cost = lambda c: -((6 if c["kind"] in trials.AUTO_KINDS else 1) * (c["n"] ** 2) * (1 + c["na"] + c["nb"]))
     out.sort(key=cost)
@@ -211,6 +223,8 @@ def job_qr(cfg):
         spin_dep = (kind in SPIN_DEP_KINDS and mode == "u") or (mode == "r" and kind in trials.CLOSED_ONLY)
         h0, h1, chol = meas_ham(n, seed, spin_dep)
         psets = [(ip, p) for ip, p in enumerate(tc.params) if ip == 0 or p.label == "dense"]
+        if kind == "multislater" and not thorough:
+            psets = psets[-1:]  # each multi-Slater parameter set is its own static configuration (compilation); quick keeps the dense one
         hds = {ip: gridmc.build_ham_data(n, h0, h1, chol, gridmc.trial_for(tc, ip), p.wave_data) for ip, p in psets}
         for pat in SCALINGS:
             Wa, Wb, Phi = scaled_walkers(tc, grid, mode, pat, na, nb)
@@ -227,6 +241,7 @@ def job_qr(cfg):
                     routes.append(("orthonormalize:" + pc,) + lib_qr(mode, Wa, Wb, "orthonormalize:" + pc))
                     routes.append(("_orthogonalize:" + pc,) + lib_qr(mode, Wa, Wb, "_orthogonalize:" + pc))
             Ra = None
+            qr_ok = True
             for (via, qa, qb, f_a, f_b) in routes:
                 site = {"linalg": "qr_vmap" if mode == "r" else "qr_vmap_uhf"}.get(via, via.split(":")[0] + "_walkers")
                 for spin, W_, Q_, f_ in (("up", Wa, qa, f_a), ("dn", Wb, qb, f_b)):
@@ -242,11 +257,15 @@ def job_qr(cfg):
                             continue
                         bad = gridmc.first_bad(np.where(ok, e, 0.0), TOL_ALG if name != "factor" else TOL_OVLP)
                         if bad is not None:
+                            qr_ok = False
                             res.violation("%s/%s:%s" % (site, spin, name), dict(base, check="qr", via=via, spin=spin, what=name, point=bad),
                                           dict(err=float(e[bad]), n_bad=int((np.where(ok, e, 0.0) > TOL_ALG).sum()), n_points=P,
                                                walker=W_[bad], returned_factor=None if not have_f else f_[bad]))
             if Ra is not None and Ra.size:
                 res.guard("qr_nontrivial_R", int((np.abs(np.triu(Ra, 1)).max(axis=(1, 2)) > 1e-3 * np.abs(np.einsum("wii->wi", Ra)).min(axis=1)).sum()) if na > 1 else int(P))
+            if not qr_ok:  # the measurement identities below are consequences of the QR contract: one defect, one signature
+                res.guard("measurement_checks_skipped_after_qr_violation")
+                continue
             fac = overlap_factor(mode, na, nb, fa, fb, Ra)
             # --- every trial parameter set: overlap identity, energy / force bias invariance
             for ip, p in psets:
@@ -358,21 +377,20 @@ def reference_rdm1(kind, n, na, nb, p):
 
 def init_configs(tier, seed):
     thorough = tier == "thorough"
-    nmax = 4 if thorough else 3
     out = []
     extra = [] if thorough else [(4, 2, 2), (4, 2, 1), (4, 3, 1)]
     for kind in SD_FAMILY:
-        for (n, na, nb) in al.sizes(nmax) + extra:
+        szs = al.sizes(4) if thorough else (quick_sizes(kind) + (extra if kind in FULL_KINDS else extra[1:2]))
+        for (n, na, nb) in szs:
             if kind == "rhf" and na != nb:
                 continue
             out.append(dict(part="init", kind=kind, n=n, na=na, nb=nb, seed=seed, tier=tier))
     for kind in OTHER_KINDS:
-        for (n, na, nb) in al.sizes(nmax) + extra:
+        szs = al.sizes(4) if thorough else (quick_sizes(kind) + ([] if (kind in trials.AUTO_KINDS and kind != "UCISD") or kind.endswith("_cpmc") else extra))
+        for (n, na, nb) in szs:
             if not trials.admitted(kind, n, na, nb):
                 continue
             if nb == 0 and kind in trials.NEED_BOTH_SPINS:
-                continue
-            if (n, na, nb) in extra and kind in trials.AUTO_KINDS and kind != "UCISD":
                 continue
             out.append(dict(part="init", kind=kind, n=n, na=na, nb=nb, seed=seed, tier=tier))
     out.sort(key=lambda c: (c["n"], c["na"] + c["nb"], c["kind"]))
@@ -631,6 +649,9 @@ def run(ctx):
     ctx.assume("kinds without _calc_rdm1 raise the documented NotImplementedError when no rdm1 is supplied (counted, outside the property)")
     jobs = qr_configs(ctx.tier, ctx.seed) + init_configs(ctx.tier, ctx.seed)
     ctx.pmap(job, jobs)
+    ctx.violations.sort(key=lambda v: (v["case"]["n"], v["case"]["na"] + v["case"]["nb"], v["case"].get("point", 0)))
+    if ctx.violations:
+        return  # vacuity guards qualify a pass; a broken generator may legitimately leave some branch unexercised
     ctx.require_guard("grid_points_u_none", "grid_points_r_none", "grid_points_u_hi-lo", "grid_points_r_lo-hi", "qr_nontrivial_R",
                       "open_shell_restricted_configs", "returned/restricted", "returned/unrestricted",
                       "variational_energy_checked/restricted-open-shell", "spin_broken_restricted_open_shell_cases",
